@@ -116,7 +116,12 @@ def _sub(rng, cls, mode, nspin, ev, mul, add, nk=1, **kw):
     d = dict(cls=cls, mode=mode, nspin=nspin, ev=ev, mul=mul, add=add, nk=nk,
              fam=_pick_family(rng, mul if cls == "xc1" else None, add if cls == "xc1" else None, evs))
     d.update(kw)
+    _SUBCOUNT[0] += 1
+    d.setdefault("mixed", _SUBCOUNT[0] % 3 == 0)
     return d
+
+
+_SUBCOUNT = [0]
 
 
 def _fd_subs(tier, rng):
@@ -151,6 +156,7 @@ def _fd_subs(tier, rng):
 
 def gen_cases(tier, seed):
     rng = rng_for(seed, PROP_NO, 0)
+    _SUBCOUNT[0] = 0
     cases = []
 
     def add_cases(prefix, kind, subs, per, weight=1.0, timeout=900):
@@ -422,7 +428,10 @@ class _Model:
         self.settings = gen.family_settings(sub["fam"], rng)
         self.parts = []
         for _ in range(sub.get("nk", 1)):
-            fl = gen.rand_feature_list(self.settings, rng)
+            # every third model mixes map classes that share raw features (not with spline evaluators, whose grids come
+            # from the maps' bounds)
+            mixed = bool(sub.get("mixed")) and "spline" not in sub["ev"]
+            fl = gen.rand_feature_list(self.settings, rng, mixed=mixed)
             evs = [_evaluator(k, fl.nfeat, rng, feature_list=fl) for k in sub["ev"].split("+")]
             self.parts.append((fl, evs))
         self.xc = self.build([self.kernel(fl, evs) for fl, evs in self.parts])
@@ -474,6 +483,8 @@ def _cfgkey(sub):
 
 def _tag_sub(rec, sub):
     rec.tag("model_class", {"xc1": "MappedXC", "xc2": "MappedXC2", "ev": "bare evaluator"}[sub["cls"]])
+    if sub.get("mixed") and "spline" not in sub["ev"]:
+        rec.tag("feature_list", "mixed map classes sharing raw features")
     for k in ("mode", "nspin", "fam", "nk"):
         if k in sub:
             rec.tag({"fam": "feature_family", "nk": "n_kernels"}.get(k, k), sub[k])
